@@ -26,12 +26,13 @@ CONSTANTS MaxLen,     \* program actions per behaviour in a secure interpreter
 
 Data == JsonDeserialize(IOEnv.C09_DATA)
 
-Natives        == Data.natives            \* id -> [secureAttr, osTouching, isFunc, fname]
+Natives        == Data.natives            \* id -> [secureAttr, osTouching, isFunc, fname, takesAlias]
 Ids            == DOMAIN Natives
 SecureAttr(id) == Natives[id].secureAttr
 OsTouching(id) == Natives[id].osTouching
 IsFunc(id)     == Natives[id].isFunc
 FName(id)      == Natives[id].fname       \* the name the function object carries
+TakesAlias(id) == Natives[id].takesAlias  \* bind_native hands the alias on for this native
 Modules        == DOMAIN Data.moduleBinds \* identifiers of the bundled modules
 ModuleBinds(m) == Elems(Data.moduleBinds[m])   \* native bindings a module's environment holds
 ModuleLoads(m) == Elems(Data.moduleLoads[m])   \* modules loaded by `require m` (m included)
@@ -39,36 +40,53 @@ BaseBinds(leg) == Elems(IF leg THEN Data.baseBinds.legacy ELSE Data.baseBinds.pl
 BootLoads(leg) == Elems(IF leg THEN Data.bootLoads.legacy ELSE Data.bootLoads.plain)
 HasRun         == Data.hasRun             \* the tree has a `run` built-in to register
 BinderIds      == Ids \ {"run"}            \* names the binder knows (`run` is registered, not bound)
-FocusIds       == Elems(Data.focusIds)    \* natives used after the first action
-FocusModules   == Elems(Data.focusModules)
+\* The alphabet narrows with depth: the first action ranges over everything the
+\* binder knows, every module and every flag form; action number n+1 (n >= 1)
+\* over Data.levels[n] = [ids, mods, shadow, assign] (forbidden natives,
+\* bind_native and seeded secure representatives; the modules that hold
+\* forbidden natives and seeded others).
+Level(n)       == Data.levels[IF n < Len(Data.levels) THEN n ELSE Len(Data.levels)]
 Probe          == Data.probe              \* a forbidden native tried inside shadowed scopes
 ShadowForms    == Elems(Data.shadowForms) \* [form, env]: ways of *defining* the flag name
 AssignForms    == Elems(Data.assignForms) \* ways of *assigning* the flag name
+IdsAt(n)       == IF n = 0 THEN BinderIds ELSE Elems(Level(n).ids)
+ModsAt(n)      == IF n = 0 THEN Modules ELSE Elems(Level(n).mods)
+ShadowAt(n)    == IF n = 0 THEN ShadowForms ELSE {sf \in ShadowForms : sf.form \in Elems(Level(n).shadow)}
+AssignAt(n)    == IF n = 0 THEN AssignForms ELSE AssignForms \cap Elems(Level(n).assign)
 SecureModes    == Elems(Data.secureModes)
 FlagName       == "checkerlang_secure_mode"
 
-Envs == {"base", "session", "usermod"} \cup Modules
+\* environment names (parenthesised: a module may itself be called `base`)
+BaseEnv    == "(base)"
+SessionEnv == "(session)"
+UserModEnv == "(usermod)"
+FrameEnv   == "(frame)"
+Envs == {BaseEnv, SessionEnv, UserModEnv} \cup Modules
 
 VARIABLES secure,   \* configuration: Interpreter(secure, legacy)
           legacy,
           flag,     \* checkerlang_secure_mode in the base environment
           bound,    \* env -> set of [name, id, priv]: native functions bound there
           reach,    \* native ids reachable from any environment
+          reach0,   \* ... right after the interpreter was constructed
           shadow,   \* environments holding their own definition of the flag name
           loaded,   \* modules evaluated so far
           phase,    \* "boot" -> "init" -> "run"
           steps,    \* program actions so far
-          expand,   \* the last action used the focus alphabet (state is explored further)
+          expand,   \* the last action belongs to level 1 (the state is explored further)
           last,     \* kind/form of the last action (keeps the flag forms apart)
           hist      \* the actions so far (witness; not part of the VIEW)
 
-vars == <<secure, legacy, flag, bound, reach, shadow, loaded, phase, steps, expand, last, hist>>
-View == <<secure, legacy, flag, bound, reach, shadow, loaded, phase, steps, expand, last>>
+vars == <<secure, legacy, flag, bound, reach, reach0, shadow, loaded, phase, steps, expand, last, hist>>
+View == <<secure, legacy, flag, bound, reach, reach0, shadow, loaded, phase, steps, expand, last>>
 
 Binding(name, id, priv) == [name |-> name, id |-> id, priv |-> priv]
 IdsOf(S)   == {b.id : b \in S}
 GateSet(S) == {b \in S : Gate(flag, SecureAttr(b.id))}
 AllIds(bd) == UNION {IdsOf(bd[e]) : e \in Envs}
+\* an environment maps a name to one value: a new binding replaces the old one
+Put(S, add)  == {b \in S : b.name \notin {a.name : a \in add}} \cup add
+Unbind(S, n) == {b \in S : b.name # n}
 
 Emit(tag, rec) == IF Export THEN PrintT("@@" \o tag \o "@@" \o ToJson(rec)) ELSE TRUE
 
@@ -82,6 +100,7 @@ Init ==
   /\ flag = secure
   /\ bound = [e \in Envs |-> {}]
   /\ reach = {}
+  /\ reach0 = {}
   /\ shadow = {}
   /\ loaded = {}
   /\ phase = "boot"
@@ -97,20 +116,21 @@ Boot ==
   /\ phase' = "init"
   /\ loaded' = BootLoads(legacy)
   /\ bound' = [e \in Envs |->
-                 IF e = "base" THEN GateSet(BaseBinds(legacy))
+                 IF e = BaseEnv THEN GateSet(BaseBinds(legacy))
                  ELSE IF e \in BootLoads(legacy) THEN GateSet(ModuleBinds(e))
                  ELSE {}]
   /\ reach' = AllIds(bound')
-  /\ UNCHANGED <<secure, legacy, flag, shadow, steps, expand, last, hist>>
+  /\ UNCHANGED <<secure, legacy, flag, reach0, shadow, steps, expand, last, hist>>
 
 (* Interpreter.__init__: `if not secure: put("run", FuncRun(self))` *)
 RegisterRun ==
   /\ phase = "init"
   /\ ~flag
   /\ phase' = "run"
-  /\ bound' = IF HasRun THEN [bound EXCEPT !["base"] = @ \cup {Binding("run", "run", FALSE)}]
+  /\ bound' = IF HasRun THEN [bound EXCEPT ![BaseEnv] = @ \cup {Binding("run", "run", FALSE)}]
               ELSE bound
   /\ reach' = IF HasRun THEN reach \cup {"run"} ELSE reach
+  /\ reach0' = reach'
   /\ UNCHANGED <<secure, legacy, flag, shadow, loaded, steps, expand, last, hist>>
   /\ Emit("BOOT", [sec |-> secure, leg |-> legacy, flag |-> flag,
                    reach |-> SetToSeq(reach'), run |-> HasRun])
@@ -119,6 +139,7 @@ SkipRun ==
   /\ phase = "init"
   /\ flag
   /\ phase' = "run"
+  /\ reach0' = reach
   /\ UNCHANGED <<secure, legacy, flag, bound, reach, shadow, loaded, steps, expand, last, hist>>
   /\ Emit("BOOT", [sec |-> secure, leg |-> legacy, flag |-> flag,
                    reach |-> SetToSeq(reach), run |-> FALSE])
@@ -126,9 +147,9 @@ SkipRun ==
 -----------------------------------------------------------------------------
 (* Program actions.  A secure interpreter is driven MaxLen actions deep, a
    non-secure one a single action (it only shows that the gate's other branch
-   and `run` are what the model says).  Natives and modules outside the focus
-   sets are used as a first action only and the state they lead to is not
-   explored further (they are interchangeable with the focus members as far
+   and `run` are what the model says).  Natives, modules and forms outside
+   level 1 are used as a first action only and the state they lead to is not
+   explored further (they are interchangeable with the level-1 members as far
    as this model can tell). *)
 Limit == IF secure THEN MaxLen ELSE 1
 Prog  == phase = "run" /\ expand /\ steps < Limit
@@ -139,11 +160,14 @@ Advance(act, focus, kind) ==
   /\ expand' = focus
   /\ last' = kind
 
+\* reach0: what is reachable right after construction (printed in full by
+\* BOOT; the edges only print the difference to it)
 EmitEdge(raises) ==
   Emit("EDGE", [sec |-> secure, leg |-> legacy, hist |-> hist',
                 post |-> [flag |-> flag',
-                          reach |-> SetToSeq(reach'),
-                          session |-> SetToSeq(bound'["session"]),
+                          reachAdd |-> SetToSeq(reach' \ reach0),
+                          reachDel |-> SetToSeq(reach0 \ reach'),
+                          session |-> SetToSeq(bound'[SessionEnv]),
                           raises |-> raises]])
 
 AliasName(id, alias) == IF alias = "flag" THEN FlagName ELSE "a_" \o id
@@ -153,31 +177,32 @@ AliasName(id, alias) == IF alias = "flag" THEN FlagName ELSE "a_" \o id
    without a gate and are not functions: nothing to track. *)
 BindNative(env, id, alias) ==
   /\ Prog
-  /\ id \in FocusIds \/ steps = 0
+  /\ id \in IdsAt(steps)
   /\ LET ok    == IsFunc(id) /\ Gate(flag, SecureAttr(id))
-         names == IF alias = "none" THEN {FName(id)} ELSE {FName(id), AliasName(id, alias)}
+         names == IF alias = "none" \/ ~TakesAlias(id) THEN {FName(id)}
+                  ELSE {FName(id), AliasName(id, alias)}
          add   == {Binding(n, id, FALSE) : n \in names}
-     IN /\ bound' = IF ok THEN [bound EXCEPT ![env] = @ \cup add] ELSE bound
-        /\ reach' = IF ok THEN reach \cup {id} ELSE reach
-        /\ shadow' = IF ok /\ alias = "flag" THEN shadow \cup {env} ELSE shadow
-  /\ UNCHANGED <<secure, legacy, flag, loaded, phase>>
-  /\ Advance(Act("bind", env, id, alias, "", ""), id \in FocusIds, "bind")
+     IN /\ bound' = IF ok THEN [bound EXCEPT ![env] = Put(@, add)] ELSE bound
+        /\ reach' = AllIds(bound')
+        /\ shadow' = IF ok /\ alias = "flag" /\ TakesAlias(id) THEN shadow \cup {env} ELSE shadow
+  /\ UNCHANGED <<secure, legacy, flag, reach0, loaded, phase>>
+  /\ Advance(Act("bind", env, id, alias, "", ""), id \in IdsAt(1), "bind")
   /\ EmitEdge("no")
 
 (* require m / require m unqualified, evaluated in the session. *)
 RequireBundled(m, form) ==
   /\ Prog
-  /\ m \in FocusModules \/ steps = 0
+  /\ m \in ModsAt(steps)
   /\ LET newly == ModuleLoads(m) \ loaded
          exp   == {b \in GateSet(ModuleBinds(m)) : ~b.priv}
      IN /\ loaded' = loaded \cup newly
         /\ bound' = [e \in Envs |->
                        IF e \in newly THEN GateSet(ModuleBinds(e))
-                       ELSE IF e = "session" /\ form = "unq" THEN bound[e] \cup exp
+                       ELSE IF e = SessionEnv /\ form = "unq" THEN Put(bound[e], exp)
                        ELSE bound[e]]
         /\ reach' = AllIds(bound')
-  /\ UNCHANGED <<secure, legacy, flag, shadow, phase>>
-  /\ Advance(Act("require", "session", "", "", m, form), m \in FocusModules, "require")
+  /\ UNCHANGED <<secure, legacy, flag, reach0, shadow, phase>>
+  /\ Advance(Act("require", SessionEnv, "", "", m, form), m \in ModsAt(1), "require")
   /\ EmitEdge("no")
 
 (* Every way of *defining* the flag name (def, destructuring def, parameter,
@@ -188,33 +213,39 @@ RequireBundled(m, form) ==
    gate still consults the base flag. *)
 DefShadow(sf) ==
   /\ Prog
+  /\ sf \in ShadowAt(steps)
   /\ LET ok == Gate(flag, SecureAttr(Probe))
          pb == Binding(FName(Probe), Probe, FALSE)
          lk == Binding("leak", Probe, FALSE)
-     IN /\ shadow' = IF sf.env = "frame" THEN shadow ELSE shadow \cup {sf.env}
-        /\ bound' = IF ~ok THEN bound
-                    ELSE IF sf.env = "session" THEN [bound EXCEPT !["session"] = @ \cup {pb, lk}]
-                    ELSE IF sf.env = "usermod" THEN [bound EXCEPT !["usermod"] = @ \cup {pb, lk},
-                                                                  !["session"] = @ \cup {lk}]
-                    ELSE [bound EXCEPT !["session"] = @ \cup {lk}]
-        /\ reach' = IF ok THEN reach \cup {Probe} ELSE reach
-  /\ UNCHANGED <<secure, legacy, flag, loaded, phase>>
-  /\ Advance(Act("shadow", sf.env, Probe, "", "", sf.form), TRUE, "shadow:" \o sf.form)
+         \* the definition replaces whatever the scope bound under the flag name,
+         \* and `leak` is (re)defined in the session whether or not the bind worked
+         b0 == [bound EXCEPT ![SessionEnv] =
+                  Unbind(IF sf.env = SessionEnv THEN Unbind(@, FlagName) ELSE @, "leak")]
+     IN /\ shadow' = IF sf.env = FrameEnv THEN shadow ELSE shadow \cup {sf.env}
+        /\ bound' = IF ~ok THEN b0
+                    ELSE IF sf.env = SessionEnv THEN [b0 EXCEPT ![SessionEnv] = Put(@, {pb, lk})]
+                    ELSE IF sf.env = UserModEnv THEN [b0 EXCEPT ![UserModEnv] = Put(@, {pb, lk}),
+                                                               ![SessionEnv] = Put(@, {lk})]
+                    ELSE [b0 EXCEPT ![SessionEnv] = Put(@, {lk})]
+        /\ reach' = AllIds(bound')
+  /\ UNCHANGED <<secure, legacy, flag, reach0, loaded, phase>>
+  /\ Advance(Act("shadow", sf.env, Probe, "", "", sf.form), sf \in ShadowAt(1), "shadow:" \o sf.form)
   /\ EmitEdge("any")
 
 (* Every way of *assigning* the flag name is rejected when the program is
    parsed: nothing changes. *)
 AssignFlag(form) ==
   /\ Prog
-  /\ UNCHANGED <<secure, legacy, flag, bound, reach, shadow, loaded, phase>>
-  /\ Advance(Act("assign", "session", "", "", "", form), TRUE, "assign:" \o form)
+  /\ form \in AssignAt(steps)
+  /\ UNCHANGED <<secure, legacy, flag, bound, reach, reach0, shadow, loaded, phase>>
+  /\ Advance(Act("assign", SessionEnv, "", "", "", form), form \in AssignAt(1), "assign:" \o form)
   /\ EmitEdge("yes")
 
 Next ==
   \/ Boot
   \/ RegisterRun
   \/ SkipRun
-  \/ \E env \in {"session", "usermod"}, id \in BinderIds, alias \in {"none", "own", "flag"} :
+  \/ \E env \in {SessionEnv, UserModEnv}, id \in BinderIds, alias \in {"none", "own", "flag"} :
         BindNative(env, id, alias)
   \/ \E m \in Modules, form \in {"qual", "unq"} : RequireBundled(m, form)
   \/ \E sf \in ShadowForms : DefShadow(sf)
@@ -232,7 +263,7 @@ Holds(name, cond, detail) == cond \/ (Cex(name, detail) /\ FALSE)
 
 TypeOK ==
   /\ secure \in BOOLEAN /\ legacy \in BOOLEAN /\ flag \in BOOLEAN
-  /\ reach \subseteq Ids
+  /\ reach \subseteq Ids /\ reach0 \subseteq Ids
   /\ \A e \in Envs : \A b \in bound[e] : b.id \in Ids /\ b.priv \in BOOLEAN
   /\ shadow \subseteq Envs
   /\ loaded \subseteq Modules
@@ -263,7 +294,7 @@ RunOnlyWhenInsecure == Holds("RunOnlyWhenInsecure", flag => "run" \notin reach, 
 \* a program cannot switch secure mode off: the base flag is what the
 \* interpreter was created with, and no definition of the name lands in the base
 FlagIsConfig   == Holds("FlagIsConfig", flag = secure, << >>)
-ShadowNotBase  == Holds("ShadowNotBase", "base" \notin shadow, << >>)
+ShadowNotBase  == Holds("ShadowNotBase", BaseEnv \notin shadow, << >>)
 FlagImmutable  == [][flag' = flag]_vars
 
 =============================================================================
